@@ -1,0 +1,94 @@
+//go:build verif
+
+// Verification hook (build tag verif only): drives a standalone TimeToExpirePriorityQueue
+// through raw container/heap and queue operations and reports the backing slice, position by
+// position, after every operation. Nothing here is reachable without the tag.
+
+package intermediate
+
+import (
+	"container/heap"
+	"fmt"
+	"time"
+)
+
+// VerifHeapOp is one raw operation: Op is one of push, pop, upd, fix, rem, set, swap, init, peek.
+type VerifHeapOp struct {
+	Op               string
+	Key              int   // push, upd: the item's identity
+	Active, Inactive int64 // push, upd, set: nanoseconds from the epoch
+	I, J             int   // fix, rem, set: index I; swap: I and J
+}
+
+// VerifHeapSlot is one slot of the slice.
+type VerifHeapSlot struct {
+	Key              int
+	Active, Inactive int64
+	Index            int
+}
+
+// VerifHeapStep is the outcome of one operation and the slice after it.
+type VerifHeapStep struct {
+	// Result: "ok", "panic", "it <key> <index field>" (pop, rem), "top <key>" (peek).
+	Result string
+	Slots  []VerifHeapSlot
+}
+
+// VerifHeapProbe runs ops on a fresh queue. Items are identified by Key; a key that was popped
+// or removed is pushed again as the same item (as the expiry scan does).
+func VerifHeapProbe(epoch time.Time, ops []VerifHeapOp) []VerifHeapStep {
+	pq := make(TimeToExpirePriorityQueue, 0)
+	items := map[int]*ItemToExpire{}
+	keyOf := map[*ItemToExpire]int{}
+	at := func(ns int64) time.Time { return epoch.Add(time.Duration(ns)) }
+	var out []VerifHeapStep
+	for _, op := range ops {
+		res := func() (res string) {
+			defer func() {
+				if r := recover(); r != nil {
+					res = "panic"
+				}
+			}()
+			switch op.Op {
+			case "push":
+				it, ok := items[op.Key]
+				if !ok {
+					it = &ItemToExpire{flowKey: &FlowKey{}}
+					items[op.Key] = it
+					keyOf[it] = op.Key
+				}
+				it.activeExpireTime, it.inactiveExpireTime = at(op.Active), at(op.Inactive)
+				heap.Push(&pq, it)
+			case "pop":
+				it := heap.Pop(&pq).(*ItemToExpire)
+				return fmt.Sprintf("it %d %d", keyOf[it], it.index)
+			case "rem":
+				it := heap.Remove(&pq, op.I).(*ItemToExpire)
+				return fmt.Sprintf("it %d %d", keyOf[it], it.index)
+			case "upd":
+				it := items[op.Key]
+				pq.Update(it, it.flowKey, it.flowRecord, at(op.Active), at(op.Inactive))
+			case "fix":
+				heap.Fix(&pq, op.I)
+			case "set":
+				pq[op.I].activeExpireTime, pq[op.I].inactiveExpireTime = at(op.Active), at(op.Inactive)
+			case "swap":
+				pq.Swap(op.I, op.J)
+			case "init":
+				heap.Init(&pq)
+			case "peek":
+				return fmt.Sprintf("top %d", keyOf[pq.Peek()])
+			default:
+				panic("bad op " + op.Op)
+			}
+			return "ok"
+		}()
+		st := VerifHeapStep{Result: res}
+		for _, it := range pq {
+			st.Slots = append(st.Slots, VerifHeapSlot{Key: keyOf[it], Index: it.index,
+				Active: int64(it.activeExpireTime.Sub(epoch)), Inactive: int64(it.inactiveExpireTime.Sub(epoch))})
+		}
+		out = append(out, st)
+	}
+	return out
+}
